@@ -27,7 +27,7 @@ VARIABLES v,        \* the allocator as the contract sees it
 
 vars == <<v, phase, resets, gapsSeen, failed, hist>>
 
-C == INSTANCE RAStack
+C == INSTANCE RAStack WITH scale <- 1
 
 Min(a, b) == IF a <= b THEN a ELSE b
 RECURSIVE Ctz(_)
@@ -40,12 +40,17 @@ Weight(s) ==
   LET power == Min(Ctz(s.align), 6) IN
   IF C!IsHome(s) THEN 16 + s.uc * (7 - power) ELSE power
 
-(* STEP 2: every order the (unstable) quick sort may produce *)
+(* STEP 2: every order the (unstable) quick sort may produce; beyond 4 slots only the two stable tie orders *)
 Perms(n) == {p \in [1 .. n -> 1 .. n] : \A i, j \in 1 .. n : i # j => p[i] # p[j]}
+RECURSIVE SelSort(_, _)
+SelSort(S, key) == IF S = {} THEN <<>>
+                   ELSE LET m == CHOOSE x \in S : \A y \in S : key[x] <= key[y] IN <<m>> \o SelSort(S \ {m}, key)
 SortedOrders(ss) ==
-  LET n == Len(ss) IN
-  {p \in Perms(n) : \A i \in 1 .. n - 1 :
-      IF Variant = "desc" THEN ss[p[i]].w >= ss[p[i + 1]].w ELSE ss[p[i]].w <= ss[p[i + 1]].w}
+  LET n == Len(ss)
+      sign == IF Variant = "desc" THEN -1 ELSE 1
+  IN IF n <= 4
+       THEN {p \in Perms(n) : \A i \in 1 .. n - 1 : sign * ss[p[i]].w <= sign * ss[p[i + 1]].w}
+       ELSE {SelSort(1 .. n, [i \in 1 .. n |-> sign * ss[i].w * 64 + i]), SelSort(1 .. n, [i \in 1 .. n |-> sign * ss[i].w * 64 + (63 - i)])}
 
 (* distribute [gapOffset, gapEnd) to the gap lists - "while (gap_offset < gap_end)";  r = [ok, g] *)
 RECURSIVE Distribute(_, _, _)
@@ -184,6 +189,6 @@ GapsDead == gapsSeen = FALSE              \* "head": the gap lists stay empty - 
 ContractInv == C!StackInv
 
 (* behaviour export *)
-Export == (Len(hist) = MaxOps \/ failed) => PrintT(<<"BEH", hist>>)
+Export == (phase = "final" \/ Len(hist) = MaxOps \/ failed) => PrintT(<<"BEH", hist>>)
 View == <<v, phase, resets, gapsSeen, failed, Len(hist), IF hist = <<>> THEN "" ELSE hist[Len(hist)][1]>>
 =============================================================================
